@@ -1,4 +1,6 @@
 import Aurora.Lemmas.ChunkInfo
+import Aurora.Lemmas.RegionSerial
+import Aurora.Generated.ChunkInfoRegions
 /-!
 # C17 — Chunk availability records never overclaim
 
@@ -306,5 +308,152 @@ example :
     Valid (fun _ => f) {} es ∧ selfBits (run {} es).ci.mem 1 = some [false, true] := by
   refine ⟨?_, by decide⟩
   simp [Valid, Ev.ok, step]
+
+/-! ### concurrent calls: every call into chunkinfo that touches a file's records is ONE `syncLk` region
+
+The theorems above are about sequences of whole calls.  The real node runs `OnChunkRetrieved`
+(netstore / retrieval goroutines), `OnChunkTransferred` (retrieval handler), `DelFile` (API, garbage
+collection) and `DelDiscover` concurrently; what makes the sequential theorems apply is that each of
+them holds `ci.syncLk` from before its first to after its last access of the file's records.  The
+extractor (harness/cmd/extract/regions.go) regenerates on every run the sequence of
+`ci.syncLk.Lock()/Unlock()` events and of the calls that read (`ci.pyramidCheck`, `ci.getPyramid`,
+`ci.getPyramidHash`) or write (`ci.chunkPutChanUpdate(…)` — every table update goes through it —,
+`ci.DelChunkInfoSource`, `ci.queues.Delete`, `ci.CancelFindChunkInfo`) those records as instruction
+lists (`Aurora/Generated/ChunkInfoRegions.lean`). -/
+
+section Concurrent
+open Aurora.Generated
+open Aurora.RegionSerial (Reach eff serial)
+
+/-- **static obligation** (by evaluation of the regenerated lists): for each of `OnChunkRetrieved`,
+    `OnChunkTransferred`, `DelFile`, `DelDiscover` the locking pattern was recognised, every access to
+    the file's records happens while `ci.syncLk` is held (`LockSetProg.bodyOk`), ALL accesses of the
+    call lie in ONE critical section (`AtomicRegion.oneRegion`), and the expected reads / writes were
+    really found (the check and the table updates of the two notification functions, the pyramid read
+    and the table deletions of `DelFile`, the deletions of `DelDiscover`).  The seeded change C17-3
+    (`Unlock()` right after `pyramidCheck`) generates
+    `[.lock 0, .access 0 false, .unlock 0, .access 0 true, .access 0 true, .access 0 true]` for
+    `OnChunkRetrieved` and this fails (`bodyOk` and `oneRegion`). -/
+theorem C17_chunkinfo_calls_one_region :
+    (ChunkInfoRegions.OnChunkRetrieved.1 = true ∧
+      LockSetProg.bodyOk ChunkInfoRegions.lockOf ChunkInfoRegions.OnChunkRetrieved.2 = true ∧
+      AtomicRegion.oneRegion ChunkInfoRegions.OnChunkRetrieved.2 = true ∧
+      AtomicRegion.accesses ChunkInfoRegions.OnChunkRetrieved.2 0 false = true ∧
+      AtomicRegion.accesses ChunkInfoRegions.OnChunkRetrieved.2 0 true = true) ∧
+    (ChunkInfoRegions.OnChunkTransferred.1 = true ∧
+      LockSetProg.bodyOk ChunkInfoRegions.lockOf ChunkInfoRegions.OnChunkTransferred.2 = true ∧
+      AtomicRegion.oneRegion ChunkInfoRegions.OnChunkTransferred.2 = true ∧
+      AtomicRegion.accesses ChunkInfoRegions.OnChunkTransferred.2 0 false = true ∧
+      AtomicRegion.accesses ChunkInfoRegions.OnChunkTransferred.2 0 true = true) ∧
+    (ChunkInfoRegions.DelFile.1 = true ∧
+      LockSetProg.bodyOk ChunkInfoRegions.lockOf ChunkInfoRegions.DelFile.2 = true ∧
+      AtomicRegion.oneRegion ChunkInfoRegions.DelFile.2 = true ∧
+      AtomicRegion.accesses ChunkInfoRegions.DelFile.2 0 false = true ∧
+      AtomicRegion.accesses ChunkInfoRegions.DelFile.2 0 true = true) ∧
+    (ChunkInfoRegions.DelDiscover.1 = true ∧
+      LockSetProg.bodyOk ChunkInfoRegions.lockOf ChunkInfoRegions.DelDiscover.2 = true ∧
+      AtomicRegion.oneRegion ChunkInfoRegions.DelDiscover.2 = true ∧
+      AtomicRegion.accesses ChunkInfoRegions.DelDiscover.2 0 true = true) := by
+  decide
+
+/-- the bodies a goroutine of the concurrent system may run (`[]` = a goroutine that does nothing) -/
+def callBodies : List LockSetProg.Body :=
+  [ChunkInfoRegions.OnChunkRetrieved.2, ChunkInfoRegions.OnChunkTransferred.2,
+   ChunkInfoRegions.DelFile.2, ChunkInfoRegions.DelDiscover.2, []]
+
+theorem C17_call_bodies_one_region : ∀ b ∈ callBodies, AtomicRegion.oneRegion b = true := by
+  decide
+
+/-- **Concurrent calls are serial.**  Any number of goroutines, goroutine `t` interpreting the
+    instruction list extracted from one of the four functions (`prog t`), its `k`-th access applying
+    an arbitrary operation `op t k` to the shared chunkinfo state, in any interleaving of their atomic
+    lock / unlock / access steps: in every reachable state in which nobody holds `syncLk` (in
+    particular when all calls have returned) the chunkinfo state is the result of running the WHOLE
+    calls `eff t` one after the other, in the order `s.log` in which they left their critical section,
+    each call at most once.  (Mutex semantics assumed: `Lock` is enabled only when the mutex is free.) -/
+theorem C17_concurrent_calls_serial {σ : Type} (op : Nat → Nat → σ → σ) (prog : Nat → LockSetProg.Body)
+    (hprog : ∀ t, prog t ∈ callBodies) (c0 : σ) (s : RegionSerial.St σ)
+    (hr : Reach op prog c0 s) (hfree : s.holder = none) :
+    s.sh = serial op prog s.log c0 ∧ s.log.Nodup :=
+  RegionSerial.serial_of_oneRegion op prog (fun t => C17_call_bodies_one_region _ (hprog t)) c0 s hr hfree
+
+/-- … and when all calls have returned: additionally every call that is not in the log had no effect. -/
+theorem C17_concurrent_calls_finished {σ : Type} (op : Nat → Nat → σ → σ) (prog : Nat → LockSetProg.Body)
+    (hprog : ∀ t, prog t ∈ callBodies) (c0 : σ) (s : RegionSerial.St σ)
+    (hr : Reach op prog c0 s) (hdone : ∀ t, (s.thr t).rest = []) :
+    s.sh = serial op prog s.log c0 ∧ s.log.Nodup ∧ ∀ t, t ∉ s.log → ∀ x, eff op prog t x = x := by
+  have h := RegionSerial.serial_finished op prog (fun t => C17_call_bodies_one_region _ (hprog t)) c0 s hr
+    (fun t => Or.inl (hdone t))
+  exact ⟨h.1, h.2.1, fun t ht => h.2.2 t (hdone t) ht⟩
+
+/-- Clause 3 on the concurrent node.  The shared state is the table model (`State`: memory + persisted
+    image).  If goroutine `t` is a `DelFile(root)` — its composed accesses are the model's
+    `delFile · root` (hypothesis `hdel`: the hand translation of the function, compared with the real
+    node by the correspondence run) — and it is the last call to leave its critical section, then,
+    whatever the other goroutines (reads racing with the deletion, transfers, other deletions) did
+    and however their steps interleaved, no availability, discovery or source record of the root is
+    left in memory or persisted, no state-store key of any overlay mentions it, and a restart does not
+    bring one back.  With the split body of seed C17-3 this is false: `OnChunkRetrieved` re-creates the
+    records after `DelFile` returned although it entered first (`C17_lost_lock_counterexample`). -/
+theorem C17_concurrent_delete_clears (op : Nat → Nat → State → State) (prog : Nat → LockSetProg.Body)
+    (hprog : ∀ t, prog t ∈ callBodies) (c0 : State) (s : RegionSerial.St State)
+    (hr : Reach op prog c0 s) (hfree : s.holder = none)
+    (t : Nat) (l : List Nat) (hlog : s.log = l ++ [t]) (root : Addr)
+    (hdel : ∀ x, eff op prog t x = delFile x root) :
+    s.sh.mem.mentions root = false ∧ s.sh.disk.mentions root = false ∧
+    (reinit s.sh).mem.mentions root = false ∧
+    (∀ k ∈ s.sh.disk.keys, k.root ≠ root) ∧ (∀ k ∈ s.sh.mem.keys, k.root ≠ root) ∧
+    (∀ k ∈ (reinit s.sh).mem.keys, k.root ≠ root) := by
+  have h := (C17_concurrent_calls_serial op prog hprog c0 s hr hfree).1
+  rw [hlog, RegionSerial.serial_append, hdel] at h
+  rw [h]
+  have h1 := C17_delete_clears_all (serial op prog l c0) root
+  have h2 := C17_delete_clears_all_keys (serial op prog l c0) root
+  exact ⟨h1.1, h1.2.1, h1.2.2, h2.1, h2.2.1, h2.2.2.1⟩
+
+/-- the shape of seed C17-3 is rejected by the static check … -/
+theorem C17_lost_lock_rejected :
+    AtomicRegion.oneRegion [.lock 0, .access 0 false, .unlock 0, .access 0 true, .access 0 true, .access 0 true] = false ∧
+    LockSetProg.bodyOk (fun _ => 0) [.lock 0, .access 0 false, .unlock 0, .access 0 true, .access 0 true, .access 0 true] = false := by
+  decide
+
+/-- … and the discipline is needed: a goroutine running `[lock, read, unlock, write]` next to a whole
+    call under the mutex reaches a final state (all returned, mutex free) in which the other call's
+    access lies BETWEEN its read and its write — no serial order of whole calls produces that state. -/
+theorem C17_lost_lock_counterexample :
+    ∃ s : RegionSerial.St (List (Nat × Nat)),
+      Reach RegionSerial.traceOp RegionSerial.splitProg [] s ∧ (∀ t, (s.thr t).rest = []) ∧
+      s.holder = none ∧ s.sh = [(0, 0), (1, 0), (0, 1)] ∧
+      ∀ l, s.sh ≠ serial RegionSerial.traceOp RegionSerial.splitProg l [] := by
+  obtain ⟨s, h1, h2, h3, h4, _, _, h7⟩ := RegionSerial.split_not_serial
+  exact ⟨s, h1, h2, h3, h4, h7⟩
+
+/-! non-vacuity: a run of the extracted bodies that exists — goroutine 0 = `OnChunkRetrieved` (its
+    second access marks chunk 5 of the file present), goroutine 1 = `DelFile` (its first access is the
+    model's `delFile`); retrieval enters first, the deletion second; the hypotheses of
+    `C17_concurrent_delete_clears` hold and before the deletion the record existed. -/
+section NonVacuity
+def exFile : FileS := { root := 1, subs := [[5, 6]], hash := [1, 9] }
+def exOp : Nat → Nat → State → State
+  | 0, 1, x => markPresent x exFile self 5
+  | 1, 0, x => delFile x 1
+  | _, _, x => x
+def exProg : Nat → LockSetProg.Body
+  | 0 => ChunkInfoRegions.OnChunkRetrieved.2
+  | 1 => ChunkInfoRegions.DelFile.2
+  | _ => []
+
+example : (∀ t, exProg t ∈ callBodies) ∧ (∀ x, eff exOp exProg 1 x = delFile x 1) ∧
+    selfBits (eff exOp exProg 0 (putNeighbor {} 1 self 2)).mem 1 = some [true, false] ∧
+    (serial exOp exProg [0, 1] (putNeighbor {} 1 self 2)).mem.keys = [] := by
+  refine ⟨?_, fun _ => rfl, by decide, by decide⟩
+  intro t
+  match t with
+  | 0 => decide
+  | 1 => decide
+  | _ + 2 => simp [exProg, callBodies]
+end NonVacuity
+
+end Concurrent
 
 end Aurora.ChunkInfo
